@@ -201,6 +201,30 @@ def _worker(args):
         d["index"] = index
         d["wall"] = time.time() - t0
         return d
+    except Exception as e:  # noqa: BLE001
+        # An exception that escaped from physt's own code through a call the check did not wrap (set-up
+        # constructions etc. that succeed on the unchanged tree) is a behavioural change of physt, not a
+        # harness defect: report it as a violation so that such a tree is flagged instead of "exit 2".
+        src = os.path.realpath(env.SRC)
+        frames = [f for f in traceback.extract_tb(e.__traceback__) if os.path.realpath(f.filename).startswith(src)]
+        if frames:
+            last = frames[-1]
+            part = Partial()
+            part.ev(True)
+            part.capped = False
+            part.violation(
+                "unexpected_exception",
+                f"unexpected_exception|{type(e).__name__}|{os.path.basename(last.filename)}:{last.name}",
+                {"unit": unit},
+                "the call succeeds (it does on the unchanged tree)",
+                traceback.format_exc()[-1800:],
+            )
+            d = part.to_dict()
+            d["index"] = index
+            d["wall"] = 0.0
+            d["notes"] = [f"unit {index} aborted by an exception raised inside physt"]
+            return d
+        return {"index": index, "harness_error": traceback.format_exc(), "unit": unit}
     except BaseException:  # noqa: BLE001 - reported as harness error by the parent
         return {"index": index, "harness_error": traceback.format_exc(), "unit": unit}
 
@@ -412,7 +436,15 @@ def run_replay(check_id, path):
     with open(path) as f:
         rec = json.load(f)
     case = rec["case"]
-    vs = mod.replay(case)
+    if isinstance(case, dict) and set(case) == {"unit"}:
+        # an exception escaped from physt while running a whole unit: re-run that unit
+        try:
+            part = mod.run_unit(case["unit"], Ctx("quick", 0, time.time() + 600))
+            vs = [dict(rec, **{"oracle": r["oracle"], "signature": sig}) for sig, (n, r) in part.viol.items()]
+        except Exception as e:  # noqa: BLE001
+            vs = [V("unexpected_exception", f"unexpected_exception|{type(e).__name__}", case, "the call succeeds", traceback.format_exc()[-1500:])]
+    else:
+        vs = mod.replay(case)
     print("case:", json.dumps(case, default=repr))
     if not vs:
         print("replay: no violation on this tree")
